@@ -20,6 +20,7 @@ def decoder_part(ck, tier, lab):
     if rc != 0:
         raise lib.Infra("lab c17dec rc=%d: %s" % (rc, se[-2000:]))
     res = lib.read_ndjson(out)[0]
+    drift = set()
     for m in (res["mismatches"] or []):
         op = m["ops"][m["step"]] if m["ops"] and m["step"] < len(m["ops"]) else {"name": "?", "n": 0}
         if m["got"].get("panic"):
@@ -29,7 +30,17 @@ def decoder_part(ck, tier, lab):
             fld = next((f for f in ("ret", "off", "err") if m["got"].get(f) != m["expect"].get(f)), "?")
             sig = "decoder/%s/%s" % (op["name"], fld)
             what = "%s(%s) on buffer %s after %s: spec %s, real %s" % (op["name"], op["n"], m["buf"], m["ops"][:m["step"]], m["expect"], m["got"])
-        ck.disagree(sig, what, {"kind": "decoder", "buf": m["buf"], "ops": m["ops"], "expect": m["expect"], "got": m["got"]})
+        primitive = op["name"] in ("Byte", "Int16", "Int32", "Uint32", "PeekByte", "PeekInt16")
+        oob = not (0 <= m["got"].get("off", 0) <= len(m["buf"]))
+        if primitive or m["got"].get("panic") or oob or m["mode"].startswith("transition-setup"):
+            # what the property states: primitive reads behave exactly as specified; nothing panics or leaves the buffer
+            ck.disagree(sig, what, {"kind": "decoder", "buf": m["buf"], "ops": m["ops"], "expect": m["expect"], "got": m["got"]})
+        else:
+            drift.add(sig + ": " + what)
+    if drift:
+        ck.notes.append("MODEL-DRIFT (Copy/Seek/Data/HasBytes differ from Decoder.tla without panicking or leaving the buffer; "
+                        "the property does not fix that behaviour): " + "; ".join(sorted(drift)[:8]))
+        print("MODEL-DRIFT C17: %d disagreements outside the property (see evidence notes)" % len(drift))
     c = res["counts"]
     ck.cov["decoder"] = {"transitions_tested": c.get("transitions", 0), "exhaustive_sequences": c.get("sequences", 0),
                          "sequence_length_bound": seqlen, "random_sequences": c.get("random_sequences", 0),
